@@ -49,7 +49,7 @@ def config(prop, tier):
 
 
 def wall_cap(tier):
-    return 150 if tier == "quick" else 1500
+    return 150 if tier == "quick" else 600
 
 
 def signature_of(f):
